@@ -7,7 +7,7 @@
     sub-relation of the equivalence of the recommendation ([norm_lnorm]).
 
     [xeval_lnorm]: [xeval doc a n] and [xeval doc (lnorm a) n] are the SAME computation in every
-    context without default namespace: same value, same error, same panic, same context afterwards.
+    context: same value, same error, same panic, same context afterwards.
     No hypothesis on the document, none on the axes.
 
     [spelling_irrelevant_light_proof]: two spellings with the same [lnorm] -- in particular two
@@ -86,7 +86,6 @@ End MeqN.
 Section Light.
 Variable doc : xdoc.
 Variable ns : list (option str * str).
-Hypothesis Hns : ns_lookup ns None = None.
 Notation meqn := (meqn ns).
 
 Lemma meqn_xbinop o (ma ma' mb mb' : M xvalue) :
@@ -181,7 +180,7 @@ Lemma pred_top_eq q x : meqn (predicate_of (xeval doc (norm_pred_top q)) x) (pre
 Proof.
   destruct q as [o a b|a|s|s|q|f args|a|p preds| |st first rest]; try apply meqn_refl.
   intros c Hc. cbn [norm_pred_top]. unfold predicate_of. cbn [xeval xbinop]. unfold bindM at 1 2 3 4.
-  rewrite (position_call_eval doc ns Hns x c Hc). unfold bindM.
+  rewrite (position_call_eval doc ns x c Hc). unfold bindM.
   destruct (rust_parse_f64 s) as [y|]; [|reflexivity].
   unfold ret, lift. cbn [eq_value is_bool is_number orb val_to_number bind xorb val_to_bool]. rewrite f64_eqb_sym.
   destruct (f64_eqb y (f64_of_N (get_position c))); reflexivity.
